@@ -350,6 +350,11 @@ func (vm *VM) callNative(fn *NativeFunction, numVariadic int8, shift StackShift,
 				}
 			} else {
 				sliceType := args[i].Type()
+				if numVariadic == 0 {
+					// The slice must be nil, not empty.
+					args[i].Set(reflect.Zero(sliceType))
+					continue
+				}
 				slice := reflect.MakeSlice(sliceType, int(numVariadic), int(numVariadic))
 				k := sliceType.Elem().Kind()
 				switch k {
